@@ -79,8 +79,99 @@ def _leaf_members(node):
     return {p for p in out if not any(q != p and q.startswith(p + ".") for q in out)}
 
 
+# classes whose substitute_decl()/resolve_type() build a fresh object on purpose, with the reason
+REBUILD_EXEMPT = {
+    "CPPScope": "a scope is re-populated declaration by declaration through add_declaration(); it is not an attribute carrier of a printed type",
+}
+
+
+def rebuild_rules(ctx, RID="R06.5", only_types=False):
+    """X::substitute_decl / X::resolve_type return a modified copy of *this*.  The copy must keep every attribute it does not
+    deliberately replace: either it is copy-constructed from *this, or each data member X declares is passed to the
+    constructor or written through the new object."""
+    db = ctx.db
+    ctx.rule(RID, "a type/declaration rebuilt by substitute_decl()/resolve_type() is copy-constructed from *this, or every data member of its class is carried over explicitly")
+    n = 0
+    for f in db.functions:
+        short = f.name.split("::")[-1]
+        if short not in ("substitute_decl", "resolve_type") or "/cppparser/" not in f.file or "::" not in f.name:
+            continue
+        cls = f.name.rsplit("::", 1)[0]
+        if only_types and not cls.endswith("Type"):
+            continue
+        rec = db.records.get(cls)
+        if rec is None:
+            continue
+        for nw in f.walk():
+            if nw.get("k") != "new" or nw.get("ty") != cls:
+                continue
+            ctor = nw.get("e") or {}
+            args = ctor.get("a", [])
+            inst = "%s|%s" % (f.name, "new")
+            if cls in REBUILD_EXEMPT:
+                ctx.info("%s not judged: %s::%s: %s" % (RID, cls, short, REBUILD_EXEMPT[cls]))
+                continue
+            n += 1
+            a0 = peel(args[0]) if len(args) == 1 else None
+            from_this = a0 is not None and a0.get("k") == "un" and a0.get("op") == "*" and (peel(a0.get("e")) or {}).get("k") == "this"
+            if from_this:
+                ctx.ob(RID, inst, True, f.loc(nw), "copy-constructed from *this")
+                continue
+            # which local holds the new object?
+            holder = None
+            for st in f.walk():
+                if st.get("k") == "decls":
+                    for d in st["d"]:
+                        if "init" in d and any(x is nw for x in walk(d["init"])):
+                            holder = d["d"]
+                t = assigned_target(st)
+                if t and any(x is nw for x in walk(t[1])):
+                    lr = local_ref(t[0])
+                    holder = lr.get("d") if lr else holder
+            fields = [fl["n"] for fl in rec["fields"] if not fl.get("static")]
+            inherited = []
+            todo = [b["n"] for b in rec.get("bases", [])]
+            while todo:
+                bn = todo.pop()
+                br = db.records.get(bn)
+                if br is None:
+                    continue
+                inherited += [bn + "::" + fl["n"] for fl in br["fields"] if not fl.get("static")]
+                todo += [b["n"] for b in br.get("bases", [])]
+            if inherited:
+                ctx.info("%s %s: inherited members %s are not judged (set by the base constructor from the new object's own arguments)" % (RID, inst, inherited))
+            carried = set()
+            for a in args:
+                for x in walk(a):
+                    if x.get("k") == "mem" and x.get("n", "").rsplit("::", 1)[0] == cls:
+                        carried.add(x["n"].split("::")[-1])
+            # members the called constructor fills from a parameter that the call really passes (not a default argument)
+            for c in db.fns(ctor.get("f", "")):
+                if c.sig != ctor.get("s"):
+                    continue
+                passed = {p["d"] for p, a in zip(c.params, args) if (a or {}).get("k") != "defarg"}
+                for ini in c.d.get("inits", []):
+                    if ini.get("m") and ini.get("e") is not None and any(x.get("k") == "ref" and x.get("d") in passed for x in walk(ini["e"])):
+                        carried.add(ini["m"].split("::")[-1])
+                for x in c.walk():
+                    t = assigned_target(x)
+                    if t and (field_of(t[0]) or "").rsplit("::", 1)[0] == cls and any(y.get("k") == "ref" and y.get("d") in passed for y in walk(t[1])):
+                        carried.add(field_of(t[0]).split("::")[-1])
+            if holder is not None:
+                for x in f.walk():
+                    if x.get("k") == "mem" and x.get("n", "").rsplit("::", 1)[0] == cls:
+                        b = local_ref(x.get("b"))
+                        if b is not None and b.get("d") == holder:
+                            carried.add(x["n"].split("::")[-1])
+            missing = [fl for fl in fields if fl not in carried]
+            ctx.ob(RID, inst, not missing, f.loc(nw),
+                   "built afresh; members carried over: %s; dropped: %s" % (sorted(carried) or "none", missing or "none"))
+    ctx.floor(RID, "rebuild sites", n, 12 if only_types else 18)
+
+
 def run(ctx):
     db = ctx.db
+    rebuild_rules(ctx, "R06.5")
     ctx.rule("R06.1", "every field a (non-copy) constructor initialises from a parameter is read by the class's structural is_less() and is_equal()")
     ctx.rule("R06.2", "for every CPPExpression variant, every union member its constructor/factory fills from a parameter is read in that variant's arm of is_less() and is_equal()")
 
